@@ -19,11 +19,13 @@ PROP = dict(
 )
 
 MANIFEST = dict(
-    text="Coq: pvs_correct (abstract principal-variation search with zero-window scouts and re-search = negamax window trichotomy, any "
-         "tree, any depth) and its connection to the code-shaped engine model Search.v; the model (transposition table, move generator "
+    text="Coq: pvs_correct (abstract PVS with zero-window scouts and re-search = negamax window trichotomy, any tree, any depth); "
+         "analyze_precise_exact: the code-shaped engine model Search.v (frames, history/response hints, state-dependent move generator, "
+         "iterative deepening) with MakePrecise and no table reports the exhaustive negamax value and a first move attaining it, on fresh "
+         "and reused engines, modulo listed facts about the rules engine (C03 completeness, move-count bound, |eval| <= MaxEval). The model (transposition table, move generator "
          "with hint de-duplication, history/response heuristics, iterative deepening, cancellation) is replayed against MinimaxAI.Analyze/"
          "AnalyzeAll on every history of calls (PV, value, depth at L1; the 17 Stats counters at L2), and an independent exhaustive "
          "negamax / forced-result solver judges value, first move, AnalyzeAll's set and the win/loss verdicts on fresh and reused engines.",
     ref='5.5', technique='Coq proof (PVS = negamax) + extracted-model/implementation differential over call histories + exhaustive negamax oracle',
     note="Trusted: Coq kernel, extraction, transcription of ai/minimax.go and ai/moves.go (validated by execution), generators. "
-         "The table clauses (tt_valid_preserved, win_sound_complete) are tested, not proved.")
+         "The table clause (tt_valid_preserved, win_sound_complete), AnalyzeAll's set and symmetry de-duplication are tested, not proved.")
